@@ -201,7 +201,7 @@ def run(ctx: core.Ctx):
     ctx.extra["behaviours_deferred_entry"] = sum(1 for b, _ in behs if any(s["act"] == "EnterCreated" for s in b["steps"]))
     n_exh = len(behs)
     if not q:
-        s = ctx.tlc("MC_Settings", write_cfg("Sim_Settings", base.format(nk=7, d=4, m=10, e="TRUE", ra="FALSE", df="both")
+        s = ctx.tlc("MC_Settings", write_cfg("Sim_Settings", base.format(nk=7, d=4, m=10, e="TRUE", ra="FALSE", df="no")
                                              + "INVARIANT EmitInv\nPROPERTY PropExitRestores\nCHECK_DEADLOCK FALSE\n"),
                     workers=1, simulate="num=3000", depth=12, seed=ctx.seed % 100000, timeout=3000)
         behs += [(b, 7) for b in s.emitted]
